@@ -2,6 +2,7 @@ package main
 
 func extractAll(p *pkg, f *facts) {
 	codecFacts(p, f)
+	authFacts(p, f)
 }
 
 func (p *pkg) constNat(f *facts, leanName, goName string) {
@@ -53,5 +54,31 @@ func codecFacts(p *pkg, f *facts) {
 		f.boolean("recordLimitBeforeMake", p.recordCheckBeforeMake(fn), true, "")
 	} else {
 		f.boolean("recordLimitBeforeMake", false, false, "func ReadRecord not found")
+	}
+}
+
+func authFacts(p *pkg, f *facts) {
+	// Secure: `ctx.ClientPort >= N`
+	if fn, ok := p.funcs["ValidateAuthentication"]; ok {
+		v, found := p.geqLiteral(fn, "ClientPort")
+		f.nat("securePortBound", v, found, "no `ctx.ClientPort >= N` in ValidateAuthentication")
+	} else {
+		f.nat("securePortBound", 0, false, "func ValidateAuthentication not found")
+	}
+	for lean, fnName := range map[string]string{"authFilterNormalises": "isIPAllowed", "serverFilterNormalises": "Server.isIPAllowed"} {
+		fn, ok := p.funcs[fnName]
+		if !ok {
+			f.boolean(lean, false, false, "func "+fnName+" not found")
+			continue
+		}
+		// the client address and the single-address entries both pass through normalizeIP
+		n := p.countCalls(fn, "normalizeIP")
+		f.boolean(lean, n >= 2, true, "")
+	}
+	if fn, ok := p.funcs["applySquashing"]; ok {
+		okk, why := p.squashCopies(fn)
+		f.boolean("squashCopiesBeforeWrite", okk, why == "", why)
+	} else {
+		f.boolean("squashCopiesBeforeWrite", false, false, "func applySquashing not found")
 	}
 }
